@@ -24,6 +24,7 @@ var registry = map[string]entry{
 	"C18": {"model_checking", checks.C18},
 	"C17": {"model_checking", checks.C17},
 	"C08": {"model_checking", checks.C08},
+	"C10": {"model_checking", checks.C10},
 	"C11": {"model_checking", checks.C11},
 	"C09": {"model_checking", checks.C09},
 }
